@@ -54,9 +54,10 @@ theorem shape_prim_rt (env : Env) (ht : env.time = TimeCfg.repaired) (hfl : Floa
     obtain ⟨w, hw⟩ := ok_of_isSome hw
     rw [← htag] at hr hw
     simp only [Shape.write, primFieldWriter, hsft, hw] at he
-    simp only [Shape.read, primFieldReader, hsft, hr]
-    exact prim_roundtrip' env ht hfl k flex (!tagged && o) (o && (env.nullableTaggedReader || !tagged))
-      (Or.inl (by cases tagged <;> cases o <;> simp)) w r hw hr v (primValueOk_mono env k o v hvo) bs he rest
+    simp only [Shape.read, primFieldReaderT, hsft, hr]
+    exact prim_roundtrip' env ht hfl k flex (!tagged && o) (readerOptional env k flex o tagged)
+      (Or.inl (by unfold readerOptional; cases tagged <;> cases o <;> simp)) w r hw hr v
+      (primValueOk_mono env k o v hvo) bs he rest
   · cases hwf
 
 theorem shape_primArr_rt (env : Env) (ht : env.time = TimeCfg.repaired) (hfl : FloatExact)
